@@ -937,6 +937,10 @@ class Interp(object):
                         return v
                 if base.fields.get('__strict__') and not self.class_may_have(base.cls, attr):
                     raise Raise('AttributeError', node, self.where(node, frame), value='%s object has no attribute %s' % (base.cls, attr))
+                if base.fields.get('__exact__'):
+                    # an object whose every attribute so far is known (built by folding its constructor): what has not been assigned yet
+                    # is not there
+                    raise Raise('AttributeError', node, self.where(node, frame), value='%s object has no attribute %s' % (base.cls, attr))
             return Top('attr:' + attr)
         if isinstance(base, ClassRef):
             if self.repo.has_cls(base.name):
